@@ -347,12 +347,20 @@ func lzfDecompress(in []byte, outlen int) (out []byte, err error) {
 	if outlen < 0 || outlen > len(in)*264 {
 		return nil, errors.Errorf("decompress length %d is impossible for %d compressed bytes", outlen, len(in))
 	}
-	out = make([]byte, outlen)
+	// the declared length is a field of the input as well : the buffer follows
+	// the bytes that are really produced, one step ahead at most (a damaged
+	// length over 16 MB of input asked for 4 GiB before a byte was decompressed)
+	n := outlen
+	if n > readBytesStep {
+		n = readBytesStep
+	}
+	out = make([]byte, n)
 	i, o := 0, 0
 	for i < len(in) {
 		ctrl := int(in[i])
 		i++
 		if ctrl < 32 {
+			out = lzfRoom(out, o+ctrl+1, outlen)
 			for x := 0; x <= ctrl; x++ {
 				out[o] = in[i]
 				i++
@@ -366,6 +374,7 @@ func lzfDecompress(in []byte, outlen int) (out []byte, err error) {
 			}
 			ref := o - ((ctrl & 0x1f) << 8) - int(in[i]) - 1
 			i++
+			out = lzfRoom(out, o+length+2, outlen)
 			for x := 0; x <= length+1; x++ {
 				out[o] = out[ref]
 				ref++
@@ -377,6 +386,19 @@ func lzfDecompress(in []byte, outlen int) (out []byte, err error) {
 		return nil, errors.Errorf("decompress length is %d != expected %d", o, outlen)
 	}
 	return out, nil
+}
+
+// lzfRoom makes out hold need bytes, at most one step ahead and never beyond
+// outlen (a run that would pass outlen is left to fail on its first byte)
+func lzfRoom(out []byte, need int, outlen int) []byte {
+	if need <= len(out) || need > outlen {
+		return out
+	}
+	n := need + readBytesStep
+	if n > outlen {
+		n = outlen
+	}
+	return append(out, make([]byte, n-len(out))...)
 }
 
 func (r *RdbReader) ReadZipmapItemP(buf *util.SliceBuffer, readFree bool) []byte {
